@@ -29,7 +29,7 @@ MANIFEST = dict(
     text="Contracts on the kernel of symbol handling in asmpars.c: SymbolAdder (a constant defined twice is an error and keeps its value; constant "
          "and variable cannot change kind; a variable is replaced; usage carried), FindNode (innermost enclosing section first, then outward to "
          "global, wrong-kind entries do not hide outer ones, FORWARD names stay local in early passes) and LookupSymbol (value, used flag, "
-         "forward/questionable flags). The symbol tree itself is an oracle; qualifiers, PUBLIC/GLOBAL redirection, temporary symbols and "
+         "forward/questionable flags). Also IdentifySection (name[], PARENTn, section names), CodePPSyms (PUBLIC/GLOBAL/FORWARD lists: each argument its own destination section) and ExpandStrSymbol (bounded). The symbol tree itself is an oracle; qualifiers, PUBLIC/GLOBAL redirection, temporary symbols and "
          "PUSHV/POPV are named unverified.",
     note="Bounded: section nesting depth <= 2, one fixed plain name. Trusted: SearchTree oracle, message stubs, no relocations.",
 )
